@@ -43,8 +43,22 @@ pub fn run(ctx: &mut Ctx, replay: Option<&str>) {
         on.issue.decoy = true;
         let mut off = f.clone();
         off.issue.decoy = false;
-        let run_on = run_flow(ctx, &on);
-        let run_off = run_flow(ctx, &off);
+        // every second pair is issued by ONE issuer instance, decoys on first and then off (the flag is an argument of the call,
+        // not a property of the instance): the decoy-free issuance must carry no unmatched digest
+        let (run_on, run_off) = if ctx.evaluations % 2 == 0 {
+            match issue_sequence(on.issue.key, on.issue.alg.clone(), vec![on.issue.clone(), off.issue.clone()]) {
+                Some(mut seq) if seq.len() == 2 => {
+                    ctx.impl_calls += 2;
+                    ctx.count("issuer.reused_instance(on then off)");
+                    let second = seq.pop().unwrap();
+                    let first = seq.pop().unwrap();
+                    (run_flow_from(ctx, &on, first), run_flow_from(ctx, &off, second))
+                }
+                _ => (run_flow(ctx, &on), run_flow(ctx, &off)),
+            }
+        } else {
+            (run_flow(ctx, &on), run_flow(ctx, &off))
+        };
         let i = reqs.len();
         reqs.push(issue_request(i, &on.issue, &run_on.issue));
         reqs.push(issue_request(i + 1, &off.issue, &run_off.issue));
@@ -64,6 +78,8 @@ pub fn run(ctx: &mut Ctx, replay: Option<&str>) {
     let mut lists_with_decoys = 0usize;
     let mut lists_total_off = 0usize;
     let mut lists_member_order_off = 0usize;
+    // the same rule per class of lists (where the list sits x decoy setting): (lists, in member order, with decoys, decoys last)
+    let mut classes: std::collections::BTreeMap<String, (usize, usize, usize, usize)> = std::collections::BTreeMap::new();
     for (on, off, run_on, run_off, i, vi) in &runs {
         cmp_issue(ctx, &on.issue, &run_on.issue, &resp[*i], true);
         cmp_issue(ctx, &off.issue, &run_off.issue, &resp[*i + 1], true);
@@ -141,6 +157,26 @@ pub fn run(ctx: &mut Ctx, replay: Option<&str>) {
             }
         }
         // order statistics
+        for (decoys_on, loc) in [(true, &l_on), (false, &l_off)] {
+            for (here, list, real_in_member_order) in &loc.sd_lists {
+                if real_in_member_order.len() >= 2 {
+                    let inside = (1..=here.len()).any(|n| hidden.contains(&here[..n].to_vec()));
+                    let key = format!("{}.{}", if inside { "inside-disclosed-value" } else if here.is_empty() { "payload-top-level" } else { "payload-nested" }, if decoys_on { "decoys-on" } else { "decoys-off" });
+                    let e = classes.entry(key).or_insert((0, 0, 0, 0));
+                    e.0 += 1;
+                    let reals_in_list: Vec<&String> = list.iter().filter(|d| real_in_member_order.contains(*d)).collect();
+                    if reals_in_list.iter().map(|s| s.as_str()).eq(real_in_member_order.iter().map(|s| s.as_str())) {
+                        e.1 += 1;
+                    }
+                    if list.len() > reals_in_list.len() {
+                        e.2 += 1;
+                        if list[..reals_in_list.len()].iter().all(|d| real_in_member_order.contains(d)) {
+                            e.3 += 1;
+                        }
+                    }
+                }
+            }
+        }
         for (_, list, real_in_member_order) in &l_on.sd_lists {
             if real_in_member_order.len() >= 2 {
                 lists_total += 1;
@@ -187,6 +223,21 @@ pub fn run(ctx: &mut Ctx, replay: Option<&str>) {
         }
     } else {
         ctx.notes.push(format!("order-leak rule not evaluated: only {} _sd lists with >= 2 real digests (needs 200)", lists_total));
+    }
+    // a correct sort (or shuffle) puts k >= 2 real digests in member order with probability <= 1/2 per list: a class of >= 100
+    // lists ALL in member order (or ALL with decoys last) has probability < 2^-100
+    for (k, (n, inorder, withd, dlast)) in &classes {
+        ctx.count_n(&format!("order_class.{}.lists", k), *n);
+        ctx.count_n(&format!("order_class.{}.in_member_order", k), *inorder);
+        if *n >= 100 {
+            ctx.oracle_checks += 1;
+            if inorder == n {
+                ctx.violation("oracle", "issue", &format!("every _sd list of the class {} lists the real digests in member order (order leak)", k), json!({"class": k, "lists": n}), json!({"in_member_order": inorder}), json!("not all"));
+            }
+            if *withd >= 100 && dlast == withd {
+                ctx.violation("oracle", "issue", &format!("every _sd list of the class {} lists the decoys after the real digests (order leak)", k), json!({"class": k, "lists": withd}), json!({"decoys_last": dlast}), json!("not all"));
+            }
+        }
     }
     ctx.count_n("decoys_off.sd_lists_with_2+_real_digests", lists_total_off);
     ctx.count_n("decoys_off.sd_lists_in_member_order", lists_member_order_off);
